@@ -32,8 +32,10 @@ class Snap:
         self.items = tuple(tuple(d.items) for d in dl)
         self.dtypes = tuple(d.dtype for d in dl)
         v = arr.values
-        self.ok = isinstance(v, np.ndarray)
-        self.values = v.copy() if self.ok else v
+        isarr = isinstance(v, np.ndarray)
+        self.values = v.copy() if isarr else v
+        # ok: the snapshot is a well-formed array (values is an ndarray of the dims' shape)
+        self.ok = isarr and v.shape == tuple(len(i) for i in self.items)
         self.name = getattr(arr, "name", None)
         self.cls = type(arr).__name__
 
@@ -50,9 +52,9 @@ class Snap:
     def same(self, other: "Snap") -> bool:
         if not self.same_dims(other):
             return False
-        if not (self.ok and other.ok):
-            return self.ok == other.ok and (self.values is other.values or self.values == other.values)
         a, b = self.values, other.values
+        if not (isinstance(a, np.ndarray) and isinstance(b, np.ndarray)):
+            return type(a) is type(b) and (a is b or (not isinstance(a, np.ndarray) and not hasattr(a, "dims") and a == b))
         return a.shape == b.shape and a.dtype == b.dtype and a.tobytes() == b.tobytes()
 
     def describe(self, maxn=64):
@@ -60,7 +62,7 @@ class Snap:
         return {
             "letters": list(self.letters),
             "items": [list(i)[:12] for i in self.items],
-            "values": v.tolist() if self.ok and v.size <= maxn else (f"ndarray{v.shape}" if self.ok else repr(v)),
+            "values": v.tolist() if isinstance(v, np.ndarray) and v.size <= maxn else (f"ndarray{v.shape}" if isinstance(v, np.ndarray) else repr(v)[:80]),
         }
 
 
